@@ -139,11 +139,12 @@ Definition estimate_tail (trusting block : Z) (headH : N) : tres :=
   | Some q => let k := u64 q in if headH <=? k then TVal 1 else TVal (headH - k)
   end.
 
-(** the downward scan of findTailHeight: while the header below [cur] is not
-    older than the window, step down; [time_at] is Store.GetByHeight(h).Time().
+(** the downward scan of findTailHeight (it also starts from an estimate one
+    above the store's head): while the header below [cur] is not older than the
+    window, step down; [time_at] is Store.GetByHeight(h).Time().
     [cur - 1] cannot underflow: oldH < cur. *)
 Fixpoint scan_down (fuel : nat) (E : Z) (oldH storeH : N) (time_at : N -> option Z) (cur : N) : tres :=
-  if (oldH <? cur) && (cur <=? storeH) then
+  if (oldH <? cur) && (cur - 1 <=? storeH) then
     match fuel with
     | O => TFuel
     | S f =>
